@@ -329,14 +329,14 @@ pub fn property(tier: Tier) -> Property {
         let mut cfg = MixedCfg::for_lang(LangId::Core);
         cfg.max_ops = tier.pick(10, 16);
         cfg.hist.namings = crate::tm::Naming::diverse();
-        cfg.hist.gen.ops = Some(vec!["v", "f2", "g3", "c0", "w", "w", "w", "p", "lam"]);
+        cfg.hist.gen.ops = Some(vec!["v", "f2", "g3", "c0", "c0", "w", "w", "w", "p", "p", "lam"]);
         stages.push(Box::new(Stage {
             name: "ops-core-modify-hook",
             source: random(move || mixed_strategy(cfg.clone()), tier.pick(2000, 40_000)),
             run: run_modify,
             panic_is_violation: true,
             render: |c: &Mixed| c.render(),
-            rule: "as ops-core, on e-graphs with an analysis whose modify hook asserts w(w(x)) = x by a union of its own (a class is merged away during the insertion that creates it; unions happen inside rebuilds); same invariants",
+            rule: "as ops-core, on e-graphs with an analysis whose modify hook asserts w(w(x)) = x and (p x c0) = c0 by unions of its own (a class is merged away during the insertion that creates it; unions happen inside rebuilds); same invariants",
             case_timeout_s: tier.pick(30, 120),
             exhaustive: false,
         }));
